@@ -26,7 +26,8 @@ func genRem(g *Gen) {
 	}
 	if !g.Quick() {
 		genRemBig(g)
-		genRemBigReorg(g)
+		genRemBigReorg(g, false)
+		genRemBigReorg(g, true)
 	}
 }
 
@@ -256,7 +257,7 @@ func genRemBig(g *Gen) {
 // step.  Before the repair the first step also erased X3's tx record (nobody else needs it), the reorganisation
 // could not roll X3 back, rolled the coinbase back (W1 needs its record) and the debit (X3, 1) stayed for ever:
 // `dangling` = d:X3:1 (specification: -).
-func genRemBigReorg(g *Gen) {
+func genRemBigReorg(g *Gen, onlyW2 bool) {
 	g.Reset()
 	op := g.Op
 	op("params", "params 4 3")
@@ -268,15 +269,28 @@ func genRemBigReorg(g *Gen) {
 	for i := 0; i < 20003; i++ {
 		outs = append(outs, "A2:1")
 	}
-	outs = append(outs, "A1:7")
+	if !onlyW2 {
+		outs = append(outs, "A1:7")
+	} else {
+		// the coinbase pays W2 alone: its own record is removable, and the first step leaves three of its credits
+		// (the credits half of the repair keeps the record for them: `residue` between the steps, after the
+		// reorganisation, then shows no stale credit)
+		g.Stats["big-coinbase-of-removed-wallet-only"]++
+	}
 	op("tx-big", "tx CBIG 1 cb %s", strings.Join(outs, ";"))
 	op("block", "block B1 G CBIG")
 	op("submit", "submit B1")
 	op("notify", "notify B1")
 	op("fill", "fill 4 F 1")
 	op("tx", "tx C2 2 cb X1:500")
-	op("tx", "tx X3 3 CBIG:0;CBIG:20002 X1:1")
-	op("block", "block B6 F.4 C2;X3")
+	if onlyW2 {
+		// no spender: which credits the first step leaves then does not matter for the counts observed below
+		// (the model scans the credit list in its own order)
+		op("block", "block B6 F.4 C2")
+	} else {
+		op("tx", "tx X3 3 CBIG:0;CBIG:20002 X1:1")
+		op("block", "block B6 F.4 C2;X3")
+	}
 	op("submit", "submit B6")
 	op("notify", "notify B6")
 	op("q-bal", "bal W2 1")
@@ -297,6 +311,9 @@ func genRemBigReorg(g *Gen) {
 	op("fill", "fill 6 H 1")
 	op("synced", "synced")
 	op("dangling-reorg-between-steps", "dangling")
+	if onlyW2 {
+		op("residue-between", "residue W2") // no credit of the rolled-back coinbase is left (u/u:20000, no u/c)
+	}
 	op("q-bal", "bal W1 1")
 	op("remstep-big", "remstep")
 	op("remstep-extra", "remstep")
